@@ -13,8 +13,8 @@ from . import eng, enggen
 PROP = "C18"
 RUN_MODULE = "Run.C18Run"
 CHUNK = 300
-K = dict(cbs=0.3, conv=0.1, guards=0.5, internal=0.7, self_loop=0.35, multi_event=0.5, final=0.3, sends=0.0,
-         raises=0.0, p_async=0.0, rtc_false=0.0, allow=1.0, ops=(0, 4), falsy_machine=0.0, p_values=0.0,
+K = dict(callable_refs=0.25, decor=0.5, state_decor=0.2, cbs=0.3, conv=0.1, guards=0.5, internal=0.7, self_loop=0.35, multi_event=0.5, final=0.3, sends=0.0,
+         raises=0.0, p_async=0.0, rtc_false=0.0, allow=1.0, ops=(0, 4), falsy_machine=0.0, p_values=0.35,
          start=0.0, resume=0.0, p_write=0.0, p_construct=0.0, p_activate=0.0, styles=("str", "list", "obj", "assign"))
 
 
@@ -50,6 +50,7 @@ def parse_graph(graph, sc):
             for g in parts[1].strip("[]").split(", "):
                 neg = g.startswith("!")
                 name = g[1:] if neg else g
+                name = name[3:] if name.startswith("fn_") else name      # a guard given as a function object
                 gs.append([int(name[1:]), not neg])
         edges.append([None if src == "i" else int(src[1:]), None if dst == "i" else int(dst[1:]), evs, gs])
     return nodes, edges
@@ -71,7 +72,7 @@ def run_impl(sc):
         visited = set()
         helper = DotGraphMachine(sm)          # one helper object reused while the machine moves on
         for k, s in enumerate(sc["visit"]):
-            sm.current_state_value = f"s{s}"
+            sm.current_state_value = eng.state_value(sc, s)
             nodes, edges = parse_graph(helper() if k % 2 == 0 else sm._graph(), sc)
             out.append({"cur": s, "nodes": nodes, "edges": edges})
             visited.add(s)
